@@ -159,6 +159,10 @@ func renderDecl(d EnvDecl, inSub bool) string {
 			fmt.Fprintf(&b, "\t%s %s = %s\n", n, d.Local, goLiteral(d.Values[i]))
 		}
 		b.WriteString(")\n")
+		if d.Local == "Kind" {
+			// a labelled enum (fmt.Stringer): its VALUE, not its label, is what the database stores
+			fmt.Fprintf(&b, "\nfunc (k Kind) String() string { return [...]string{\"first\", \"second\", \"third\"}[int(k)%%3] }\n")
+		}
 	case "struct":
 		fmt.Fprintf(&b, "type %s struct {\n", d.Local)
 		for _, f := range d.Fields {
@@ -295,6 +299,15 @@ func targets() []Table {
 
 // Compose builds model files so that every specification of the universe is the column of some table.
 func Compose(u *Universe, rng *rand.Rand, colsPerTable int, firstID int) []*Model {
+	return compose(u, rng, colsPerTable, firstID, []string{"int64"})
+}
+
+// ComposeAnyID is Compose with id fields of several integer types (schema only: the CRUD generator needs int64 ids).
+func ComposeAnyID(u *Universe, rng *rand.Rand, colsPerTable int, firstID int) []*Model {
+	return compose(u, rng, colsPerTable, firstID, []string{"int64", "int", "int32", "int64"})
+}
+
+func compose(u *Universe, rng *rand.Rand, colsPerTable int, firstID int, idTypes []string) []*Model {
 	var models []*Model
 	order := rng.Perm(len(u.Specs))
 	names := []string{"Item", "HTTPLog", "UserAccount2", "X", "OrderLine", "APIKey", "Tag"}
@@ -309,7 +322,8 @@ func Compose(u *Universe, rng *rand.Rand, colsPerTable int, firstID int) []*Mode
 			n := 0
 			for c := 0; c <= colsPerTable && i <= len(order); c++ {
 				if c == idPos {
-					tb.Fields = append(tb.Fields, plain(idName, basic("int64")))
+					// the primary key is the field NAMED id, whatever its integer type
+					tb.Fields = append(tb.Fields, plain(idName, basic(idTypes[rng.Intn(len(idTypes))])))
 					continue
 				}
 				if i == len(order) {
